@@ -78,4 +78,48 @@ var _ eq.Derives[fp.Eq[Wrapper[any]]]
 // @fp.Derive
 var _ show.Derives[fp.Show[Wrapper[any]]]
 `,
+	// Two imported packages that share the package name "codec": the generated file needs a
+	// numbered import alias (codec / codec1), whose numbering must not depend on the order in
+	// which a map of methods / fields happens to be visited.
+	"test/internal/zzverif2/a/codec/codec.go": "package codec\n\ntype Reader struct{ N int }\n",
+	"test/internal/zzverif2/b/codec/codec.go": "package codec\n\ntype Writer struct{ N int }\n",
+	"test/internal/zzverif2/model/model.go": `package model
+
+import (
+	acodec "github.com/csgura/fp/test/internal/zzverif2/a/codec"
+	bcodec "github.com/csgura/fp/test/internal/zzverif2/b/codec"
+)
+
+type Pipe struct{ n int }
+
+func (r Pipe) Op1(src acodec.Reader) int { return r.n + src.N }
+func (r Pipe) Op2(dst bcodec.Writer) int { return r.n - dst.N }
+func (r Pipe) Op3(src acodec.Reader) int { return r.n + src.N }
+func (r Pipe) Op4(dst bcodec.Writer) int { return r.n - dst.N }
+func (r Pipe) Op5(src acodec.Reader) bcodec.Writer { return bcodec.Writer{N: src.N} }
+func (r Pipe) Op6(dst bcodec.Writer) acodec.Reader { return acodec.Reader{N: dst.N} }
+`,
+	"test/internal/zzverif2/app/app.go": `package app
+
+import (
+	"github.com/csgura/fp"
+	acodec "github.com/csgura/fp/test/internal/zzverif2/a/codec"
+	bcodec "github.com/csgura/fp/test/internal/zzverif2/b/codec"
+	"github.com/csgura/fp/test/internal/zzverif2/model"
+)
+
+//go:generate go run github.com/csgura/fp/cmd/gombok
+
+// @fp.Deref
+type Conn model.Pipe
+
+// @fp.Value
+// @fp.GenLabelled
+type Link struct {
+	src  acodec.Reader
+	dst  bcodec.Writer
+	opt  fp.Option[bcodec.Writer]
+	many fp.Seq[acodec.Reader]
+}
+`,
 }
